@@ -2,6 +2,7 @@
 import sys, json, glob
 grp, pids, style = sys.argv[1], sys.argv[2].split(','), sys.argv[3]
 STYLES = {
+ 'refactor': "A REFACTORING THAT IS ALMOST BEHAVIOUR-PRESERVING: the diff must read like a clean-up a maintainer would approve at a glance - extracting a helper, merging two near-duplicate blocks, replacing a loop by a library call or an index loop by a range loop, hoisting an expression into a local, inverting a condition to reduce nesting, replacing a hand-written comparison by a generic one, caching a value that is computed twice, reordering independent-looking statements, narrowing or widening a variable's type - and be equivalent on every path except one: the merged blocks differed in one detail, the hoisted expression is stale after a mutation in between, the cached value is not invalidated on one path, the generic comparison treats nil and empty differently, the reordered statements were not independent under one condition, the narrower type truncates a rare large value.",
  'codec': "CODEC- OR CONTAINER-SPECIFIC PATH: the change must be invisible for H264 + AAC in the common variants and show only on one of the less travelled codec or container paths - VP9, AV1, H265, Opus, multi-packet / multi-AU audio writes, MPEG-TS specifics (PAT/PMT, 33-bit wrap, ADTS), fMP4 specifics (trun flags, presentation offsets, base times, sequence numbers), codec parameter extraction or comparison for one codec, codec strings, conversion of codec descriptions between the library's types and the container's.",
  'conc': "CONCURRENCY: the change must be invisible in any single-threaded use and show only under a specific interleaving of goroutines - a window of a few statements between a lock release and a notification, a check made before instead of after acquiring a lock, a flag read outside the critical section, a wake-up that can be missed, a goroutine that is not waited for, a channel operation that can block forever when the other side has already left, state published before it is complete, an unlock on one path only. The existing tests must keep passing (also with -race where they can run with it).",
  'numeric': "NUMERIC BOUNDARY: the change must be invisible for ordinary values and show only at an exact boundary or for an extreme value - a comparison that differs only when two quantities are equal, rounding that differs only at an exact tie or for negative values, integer truncation vs floor for negative numbers, an overflow or wrap-around that needs very large values, a unit conversion that loses precision only for certain clock rates, an off-by-one that matters only when a count is exactly a limit, a duration that is exactly a multiple of something.",
